@@ -140,67 +140,68 @@ class DefaultFormulaParser(FormulaParser):
             tokens, "0", [token_minus, token_one], kind=Token.Kind.VALUE
         )
 
-        # Insert intercepts
-        if self.include_intercept:
-            tokens = list(
-                insert_tokens_after(
-                    tokens,
-                    "~",
-                    [token_one],
-                    kind=Token.Kind.OPERATOR,
-                    join_operator="+",
-                    no_join_for_operators={"+", "-"},
-                )
+        # Split operator tokens after `~` and `|`, inserting intercepts if requested.
+        intercept = [token_one] if self.include_intercept else []
+        join_operator = "+" if self.include_intercept else None
+        tokens = list(
+            insert_tokens_after(
+                tokens,
+                "~",
+                intercept,
+                kind=Token.Kind.OPERATOR,
+                join_operator=join_operator,
+                no_join_for_operators={"+", "-"},
             )
+        )
 
-            def find_rhs_index(tokens: list[Token]) -> int:
-                """
-                Find the top-level index of the tilde operator starting the
-                right hand side of the formula (or -1 if not found).
-                """
-                from .algos.tokens_to_ast import CONTEXT_CLOSERS, CONTEXT_OPENERS
+        def find_rhs_index(tokens: list[Token]) -> int:
+            """
+            Find the top-level index of the tilde operator starting the
+            right hand side of the formula (or -1 if not found).
+            """
+            from .algos.tokens_to_ast import CONTEXT_CLOSERS, CONTEXT_OPENERS
 
-                context = []
-                for index, token in enumerate(tokens):
-                    if token.kind is Token.Kind.CONTEXT:
-                        if token.token in CONTEXT_OPENERS:
-                            context.append(token.token)
-                            continue
-                        else:
-                            if (
-                                not context
-                                or context[-1] != CONTEXT_CLOSERS[token.token]
-                            ):
-                                return -1  # pragma: no cover ; should not happen
-                            context.pop()
-                    if context:
+            context = []
+            for index, token in enumerate(tokens):
+                if token.kind is Token.Kind.CONTEXT:
+                    if token.token in CONTEXT_OPENERS:
+                        context.append(token.token)
                         continue
-                    if token.token == "~":  # noqa: S105
-                        return index
-                return -1
+                    else:
+                        if (
+                            not context
+                            or context[-1] != CONTEXT_CLOSERS[token.token]
+                        ):
+                            return -1  # pragma: no cover ; should not happen
+                        context.pop()
+                if context:
+                    continue
+                if token.token == "~":  # noqa: S105
+                    return index
+            return -1
 
-            rhs_index = find_rhs_index(tokens) + 1
-            tokens = [
-                *(
-                    tokens[:rhs_index]
-                    if rhs_index > 0
-                    else ([token_one, token_plus] if len(tokens) > 0 else [token_one])
-                ),
-                *insert_tokens_after(
-                    tokens[rhs_index:],
-                    r"\|",
-                    [token_one],
-                    kind=Token.Kind.OPERATOR,
-                    join_operator="+",
-                    no_join_for_operators={"+", "-"},
-                ),
-            ]
+        rhs_index = find_rhs_index(tokens) + 1
+        tokens = [
+            *(
+                tokens[:rhs_index]
+                if rhs_index > 0 or not self.include_intercept
+                else ([token_one, token_plus] if len(tokens) > 0 else [token_one])
+            ),
+            *insert_tokens_after(
+                tokens[rhs_index:],
+                r"\|",
+                intercept,
+                kind=Token.Kind.OPERATOR,
+                join_operator=join_operator,
+                no_join_for_operators={"+", "-"},
+            ),
+        ]
 
-            context["__formulaic_variables_used_lhs__"] = [
-                variable
-                for token in tokens[:rhs_index]
-                for variable in token.required_variables
-            ]
+        context["__formulaic_variables_used_lhs__"] = [
+            variable
+            for token in tokens[:rhs_index]
+            for variable in token.required_variables
+        ]
 
         # Collapse inserted "+" and "-" operators to prevent unary issues.
         tokens = merge_operator_tokens(tokens, symbols={"+", "-"})
